@@ -303,11 +303,11 @@ func where() string {
 	return "other"
 }
 
-func (n *node) validator(kind string) any {
+func (n *node) validator(kind, ty string) any {
 	if kind == "bad" {
 		return func(m *pubsub.Message) bool { return true }
 	}
-	return func(ctx context.Context, from peer.ID, msg *pubsub.Message) pubsub.ValidationResult {
+	ex := func(ctx context.Context, from peer.ID, msg *pubsub.Message) pubsub.ValidationResult {
 		c := vcall{m: nameOfData(msg.GetData()), where: where(), dl: -1}
 		if d, ok := ctx.Deadline(); ok {
 			c.dl = time.Until(d).Milliseconds()
@@ -328,6 +328,8 @@ func (n *node) validator(kind string) any {
 			return pubsub.ValidationReject
 		case "ignore":
 			return pubsub.ValidationIgnore
+		case "weird":
+			return pubsub.ValidationResult(7) // outside the enumeration: documented to count as Ignore
 		case "block":
 			select {
 			case <-gate:
@@ -337,6 +339,19 @@ func (n *node) validator(kind string) any {
 		}
 		return pubsub.ValidationAccept
 	}
+	// the four function types RegisterTopicValidator accepts
+	b := func(ctx context.Context, from peer.ID, msg *pubsub.Message) bool {
+		return ex(ctx, from, msg) == pubsub.ValidationAccept
+	}
+	switch ty {
+	case "bool":
+		return b
+	case "V":
+		return pubsub.Validator(b)
+	case "Ex":
+		return pubsub.ValidatorEx(ex)
+	}
+	return ex
 }
 
 func newNode(t testing.TB, h host.Host, cfg M, names *hnet.Names) *node {
@@ -553,6 +568,9 @@ func (n *node) do(o M, nextCtx context.Context) string {
 		return "ok"
 	case "next":
 		msg, err := n.ss[si].Next(nextCtx)
+		if msg == nil && err == nil {
+			return "nil-without-error"
+		}
 		if err != nil {
 			if nextCtx.Err() != nil && err == nextCtx.Err() {
 				return "blocked"
@@ -613,7 +631,7 @@ func (n *node) do(o M, nextCtx context.Context) string {
 		if c := geti(o, "conc", 0); c > 0 {
 			opts = append(opts, pubsub.WithValidatorConcurrency(c))
 		}
-		return errClass(n.ps.RegisterTopicValidator(t, n.validator(gets(o, "v")), opts...))
+		return errClass(n.ps.RegisterTopicValidator(t, n.validator(gets(o, "v"), gets(o, "opt")), opts...))
 	case "unreg":
 		return errClass(n.ps.UnregisterTopicValidator(t))
 	case "lp", "plp":
@@ -779,10 +797,34 @@ func (r *seqRun) runSeq(s scenario) bool {
 			break
 		}
 		settle()
+		// the snapshot goes through the event loop: a loop that is stuck (say, behind a slow subscriber) never answers
+		snapCh := make(chan M, 1)
+		go func() { snapCh <- n.snap() }()
+		synctest.Wait()
+		var st M
+		select {
+		case st = <-snapCh:
+		default:
+			hnet.Settle(2 * time.Second)
+			select {
+			case st = <-snapCh:
+				line["late"] = true
+			default:
+			}
+		}
 		line["ev"], line["snd"] = n.tr.take()
 		line["vc"] = n.takeVC()
+		if st == nil {
+			line["hung"] = true
+			line["wire"] = n.wire(nil)
+			line["st"] = M{"reg": []bool{}, "subs": []int{}, "rel": []int{}, "evh": []int{}, "gt": []bool{}, "extra": []string{"event loop does not answer"}}
+			r.out.Emit(line)
+			ok = false
+			hungScenarios++
+			break
+		}
 		line["wire"] = n.wire(peers)
-		line["st"] = n.snap()
+		line["st"] = st
 		r.out.Emit(line)
 	}
 	// release whatever is still parked, then shut the instance down
